@@ -32,7 +32,7 @@ def _expand(payload, sub):
                          source_kinds=[rng.choice(['list', 'gen']) for _ in tables])
     npre = len(sc['steps'])
     # suffix: first a few steps biased to discarding, then anything
-    PL.gen_pipeline(rng, None, payload['ns'], tags=DISCARD_TAGS if rng.random() < 0.7 else None, exclude=OBS_KINDS + ('user',), stats=stats, sc=sc, g=g)
+    PL.gen_pipeline(rng, None, payload['ns'], tags=(DISCARD_TAGS | {'user'}) if rng.random() < 0.7 else None, exclude=OBS_KINDS, stats=stats, sc=sc, g=g)
     if rng.random() < payload.get('truncate_p', 0.05):
         # known finding C05-consumer-stops-early: a downstream user step that stops pulling a resource early
         sc['steps'].insert(rng.randrange(npre, len(sc['steps']) + 1), ST.gen_truncate(rng, None, g))
